@@ -29,10 +29,10 @@ type httpSpec struct {
 	Body     string `json:"body"`      // action list
 	BodyKind int    `json:"body_kind"` // 0 put(id) 1 invalid action 2 empty 3 body with an embedded CRLF 4 process-executing action + put(id)
 	ID       int    `json:"id"`
-	Frags    []int  `json:"frags"`    // fragment sizes (cycled); empty = all at once
-	GapsMs   []int  `json:"gaps_ms"`  // pause before each fragment
-	CloseAt  int    `json:"close_at"` // close the connection after this many bytes (0 = read the response)
-	Wait     bool   `json:"wait"`     // wait for this exchange to end before the next event
+	Frags    []int  `json:"frags"`           // fragment sizes (cycled); empty = all at once
+	GapsMs   []int  `json:"gaps_ms"`         // pause before each fragment
+	CloseAt  int    `json:"close_at"`        // close the connection after this many bytes (0 = read the response)
+	Wait     bool   `json:"wait"`            // wait for this exchange to end before the next event
 	Probe    bool   `json:"probe,omitempty"` // sent while the UI is busy and the hand-over queue is full: still to be answered soon
 }
 
